@@ -160,6 +160,12 @@ class Env:
                 self.storage.close()
         except Exception:
             pass
+        Env.clear_pack_failure()
+        if getattr(self, '_other', None) is not None:
+            try:
+                self._other.close()
+            except Exception:
+                pass
         ZODB.blob.BlobFile.__init__ = self._orig_bf_init
         for m, name, f in self._saved_bound:
             m.__dict__[name] = f
@@ -474,6 +480,68 @@ class Env:
 
     def clear_finish_failure(self):
         self.base.__dict__.pop('tpc_finish', None)
+
+    def fail_next_pack(self):
+        """failure point for pack: the packer runs out of disk space after its copy phase (before the
+        data-file swap); the pack is abandoned, nothing was packed — and nothing of it may influence a
+        later pack (e.g. tags left in <blob_dir>/.removed)"""
+        import errno
+        mod = sys.modules['ZODB.FileStorage.fspack']
+        cls = mod.FileStoragePacker
+        if '_c13_orig_copy' in cls.__dict__:
+            return
+        orig = cls.copyToPacktime
+        cls._c13_orig_copy = orig
+
+        def copyToPacktime(packer):
+            Env.clear_pack_failure()
+            orig(packer)
+            raise OSError(errno.ENOSPC, 'No space left on device (injected into the packer)')
+        cls.copyToPacktime = copyToPacktime
+
+    @staticmethod
+    def clear_pack_failure():
+        mod = sys.modules.get('ZODB.FileStorage.fspack')
+        if mod is not None and '_c13_orig_copy' in mod.FileStoragePacker.__dict__:
+            mod.FileStoragePacker.copyToPacktime = mod.FileStoragePacker._c13_orig_copy
+            del mod.FileStoragePacker._c13_orig_copy
+
+    def other_storage(self, root, kind):
+        """a second, independent blob storage in the same process (not recorded, not modelled)"""
+        if getattr(self, '_other', None) is None:
+            import ZODB.blob
+            from ZODB.FileStorage import FileStorage
+            from ZODB.MappingStorage import MappingStorage
+            d = os.path.join(root, 'other')
+            os.makedirs(d)
+            if kind == 'fs':
+                self._other = FileStorage(os.path.join(d, 'Data.fs'), blob_dir=os.path.join(d, 'blobs'))
+            else:
+                self._other = ZODB.blob.BlobStorage(os.path.join(d, 'blobs'), MappingStorage())
+            self._other_oid = self._other.new_oid()
+            self._other_serial = b'\0' * 8
+        return self._other
+
+    def other_transaction(self, root, kind, end):
+        """run one complete two-phase commit with a blob on the second storage; end 'finish' | 'abort'"""
+        from ZODB.Connection import TransactionMetaData
+        from ZODB.blob import Blob
+        from ZODB.serialize import ObjectWriter
+        S2 = self.other_storage(root, kind)
+        t2 = TransactionMetaData()
+        S2.tpc_begin(t2)
+        tmp = os.path.join(S2.temporaryDirectory(), 'o%d.tmp' % len(self.lines))
+        with vfs._real_open(tmp, 'wb') as f:
+            f.write(b'other storage')
+        S2.storeBlob(self._other_oid, self._other_serial, ObjectWriter().serialize(Blob()), tmp, '', t2)
+        S2.tpc_vote(t2)
+        if end == 'finish':
+            self._other_serial = S2.tpc_finish(t2)
+        else:
+            S2.tpc_abort(t2)
+        # its own directory: one file per committed revision
+        n = sum(1 for dp, _, fn in os.walk(S2.fshelper.base_dir) for f in fn if f.endswith('.blob'))
+        return n
 
     def _cur_tid(self, oid):
         try:
